@@ -3,11 +3,11 @@
 # (synchronised to /repo HEAD first), so that /repo itself stays untouched while a long check is reading it.
 set -u
 patch=$1; shift
-wt=/tmp/wt2
+wt=${SEED_TRY_WT:-/tmp/wt2}
 cd $wt || exit 2
 git checkout -q -- . && git clean -fdq && git checkout -q --detach $(git -C /repo rev-parse HEAD)
 git apply "$patch" || exit 2
-trap 'git -C /tmp/wt2 checkout -q -- . ; git -C /tmp/wt2 clean -fdq' EXIT
+trap 'git -C $wt checkout -q -- . ; git -C $wt clean -fdq' EXIT
 for id in "$@"; do
   echo "== $id"
   VERIF_REPO=$wt VERIF_EVIDENCE_DIR=$(mktemp -d) /verif/check "$id" --tier quick 2>&1 | grep -v "^KNOWN-FINDING" | tail -15
